@@ -32,7 +32,7 @@ def models(quick):
                      maxlookups=2, invariants=INVS, properties=("IndexStableA",))]
 
 
-def replay_histories(ctx, res, letters):
+def replay_histories(ctx, res, letters, max_groups=None):
     """spec -> code for database histories: the successors of a built database in the state graph are lookups with
     other query lists; all emitted behaviours sharing (engine, k, reference) are replayed against ONE real database
     object, each query list twice, and the object's index is compared before/after every lookup."""
@@ -43,7 +43,11 @@ def replay_histories(ctx, res, letters):
             i = doc["inp"]
             # SymdelDB fixes max_edits at build time; LookupDB takes it per lookup: one object serves every radius
             groups.setdefault((i["engine"], i["k"] if i["engine"] == "symdel" else 0, i["mode"], str(i["seqs"])), {})[str(i["seqs2"]) + "/" + str(i["k"])] = doc
-    for (eng, k, mode, _), docs in groups.items():
+    items = list(groups.items())
+    if max_groups is not None and len(items) > max_groups:
+        ctx.note(f"{res.cfg}: {len(items)} database histories, seeded sample of {max_groups} replayed")
+        items = ctx.rng.sample(items, max_groups)
+    for (eng, k, mode, _), docs in items:
         docs = sorted(docs.values(), key=lambda d: (str(d["inp"]["seqs2"]), d["inp"]["k"]))
         if len(docs) > 24:
             docs = docs[:12] + docs[-12:]
@@ -94,10 +98,10 @@ def run(ctx):
         if "hash" in mr.kw["engines"] and max(mr.kw["ks"]) >= 2:
             alph = alph[:1]          # the real edit ball over 20 letters is large for k >= 2
         if mr.kw.get("maxlookups"):
-            replay_histories(ctx, res, alph[0])
+            replay_histories(ctx, res, alph[0], max_groups=None if ctx.quick else 1500)
         else:
-            npx.replay_emitted(ctx, res, alph, classify=classify_with_equal_positions)
-            replay_histories(ctx, res, alph[-1])
+            npx.replay_emitted(ctx, res, alph, classify=classify_with_equal_positions, budget=None if ctx.quick else 40000)
+            replay_histories(ctx, res, alph[-1], max_groups=None if ctx.quick else 1500)
     ctx.exhaustive = True
     # ---- recorded sessions
     sessions, sid = [], 0
